@@ -57,6 +57,8 @@ def check(m, run):
     _sdb.evx(m, run)      # ... and every evaluated point being the combination of exactly the degree + 1 (per direction) active control points with them (EVX, shared with C01)
     _sdb.cp2(m, run)      # parameters are accepted exactly when they lie in the (normalised) domain: no tolerance lets an evaluation out of it
     rs.iv4_deepcopy(m, run)
+    _sdb.sc2(m, run)
+    rs.iv9_edits_through_setters(m, run)       # whoever moves control points goes through the setters, so the cached box is dropped (IV9, shared with C10 / C12)
     run.floor('LY1.canonical-stride', 3, 'surface/volume evaluators')
 
 
